@@ -254,22 +254,38 @@ static char *concat(char *head, const char *tail) {
 /* The file is shared by the test's own process and the reporting process, which each
    have their own 'output', so only ever add what is new at the end of the file, and
    make sure it is there even if the process is killed later */
-static void append_to_child_output(size_t already_written) {
+static void append_to_child_output(TestReporter *reporter, size_t already_written) {
+    if (child_output_tmpfile == NULL) {
+        /* Not inside a test: a check made by a suite's setup or teardown in the reporting
+           process itself. There is no test to attach it to, so it goes to the suite's file directly */
+        XmlMemo *memo = (XmlMemo *)reporter->memo;
+        memo->printer(file_stack[file_stack_p-1], "%s", output + already_written);
+        free(output);
+        output = NULL;
+        return;
+    }
     fseek(child_output_tmpfile, 0, SEEK_END);
     fputs(output + already_written, child_output_tmpfile);
     fflush(child_output_tmpfile);
+}
+
+/* What has been accumulated so far, the empty text when nothing is being accumulated */
+static size_t length_of_output(void) {
+    if (output == NULL)
+        output = strdup("");
+    return strlen(output);
 }
 
 static void xml_show_skip(TestReporter *reporter, const char *file, int line) {
     (void)file;
     (void)line;
 
-    size_t already_written = strlen(output);
+    size_t already_written = length_of_output();
 
     output = concat(output, indent(reporter));
     output = concat(output, "\t<skipped />\n");
 
-    append_to_child_output(already_written);
+    append_to_child_output(reporter, already_written);
 }
 
 static void concat_escaped(const char *text) {
@@ -295,7 +311,7 @@ static void concat_location(const char *file, int line) {
 }
 
 static void xml_show_fail(TestReporter *reporter, const char *file, int line, const char *message, va_list arguments) {
-    size_t already_written = strlen(output);
+    size_t already_written = length_of_output();
 
     output = concat(output, indent(reporter));
     output = concat(output, "<failure message=\"");
@@ -308,12 +324,12 @@ static void xml_show_fail(TestReporter *reporter, const char *file, int line, co
     output = concat(output, indent(reporter));
     output = concat(output, "</failure>\n");
 
-    append_to_child_output(already_written);
+    append_to_child_output(reporter, already_written);
 }
 
 static void xml_show_incomplete(TestReporter *reporter, const char *filename, int line, const char *message, va_list arguments) {
     char buffer[1000];
-    size_t already_written = strlen(output);
+    size_t already_written = length_of_output();
 
     output = concat(output, indent(reporter));
     output = concat(output, "<error type=\"Fatal\" message=\"");
@@ -326,7 +342,7 @@ static void xml_show_incomplete(TestReporter *reporter, const char *filename, in
     output = concat(output, indent(reporter));
     output = concat(output, "</error>\n");
 
-    append_to_child_output(already_written);
+    append_to_child_output(reporter, already_written);
 }
 
 
@@ -351,6 +367,9 @@ static void xml_reporter_finish_test(TestReporter *reporter, const char *filenam
 
     transfer_output_from(child_output_tmpfile, memo->printer, out);
     fclose(child_output_tmpfile);
+    child_output_tmpfile = NULL;
+    free(output);
+    output = NULL;
 
     memo->printer(out, indent(reporter));
     memo->printer(out, "</testcase>\n");
